@@ -4,5 +4,6 @@ CONSTANTS Keys = {1, 2}
           Zero = {2}
           D = 1
           GAttrs = {"ok", "expired", "negttl"}
+          GDiag = FALSE
 INVARIANTS Emit ExpIsVerdict
 CHECK_DEADLOCK FALSE
